@@ -10,6 +10,7 @@ import (
 	"sort"
 	"strings"
 	"sync/atomic"
+	"time"
 
 	"verifharness/internal/rng"
 
@@ -33,21 +34,23 @@ type handle struct {
 	st     *store
 	b      *rosmar.Bucket
 	ds     sgbucket.DataStore // the default collection, fetched while the handle was open
-	closed bool // closed through Close
-	dead   bool // its store was deleted
+	closed bool               // closed through Close
+	dead   bool               // its store was deleted
 }
 
 type Model struct {
-	prefix   string
-	tmp      string
-	registry map[string]*store // name -> store currently registered (in-memory stores stay registered with 0 handles)
-	disk     map[string]*store // url -> persisted on-disk store
-	handles  []*handle
-	gen      int
-	nwrite   int
-	Report   func(kind, msg string)
-	Cell     func(string)
-	Steps    []string
+	prefix       string
+	tmp          string
+	registry     map[string]*store // name -> store currently registered (in-memory stores stay registered with 0 handles)
+	disk         map[string]*store // url -> persisted on-disk store
+	handles      []*handle
+	gen          int
+	nprobe       int
+	nwrite       int
+	ClosedProbes int // calls issued on closed handles beyond Set/Get
+	Report       func(kind, msg string)
+	Cell         func(string)
+	Steps        []string
 }
 
 var scnSerial atomic.Uint64
@@ -339,6 +342,7 @@ func (m *Model) Invariants() {
 			} else if !errors.Is(err, rosmar.ErrBucketClosed) {
 				m.Report("probe.closed-errclass", fmt.Sprintf("h%d was closed; its calls fail with %q instead of the bucket-closed error", h.id, err))
 			}
+			m.probeClosedMore(h)
 		default:
 			if err != nil {
 				m.Report("probe.open-fails|"+ifs(h.st.disk, "disk", "mem"), fmt.Sprintf("h%d is open (bucket %s, %s) but a read/write failed: %v   [steps: %s]", h.id, h.st.name, ifs(h.st.disk, "disk", "mem"), err, strings.Join(m.Steps, " ")))
@@ -509,5 +513,93 @@ func (m *Model) EnumStep(k int, sel int) {
 		}
 	case 11: // a second name in memory
 		m.Open(1, 0, rosmar.CreateOrOpen)
+	}
+}
+
+// probeClosedMore: a closed handle's other calls - feeds, xattr and sub-document entry points, counters, queries,
+// views - must be refused too (with the bucket-closed error where an error value is returned).
+func (m *Model) probeClosedMore(h *handle) {
+	col, ok := h.ds.(*rosmar.Collection)
+	if !ok || col == nil {
+		return
+	}
+	ctx := context.Background()
+	m.nprobe++
+	type call struct {
+		name string
+		f    func() error
+	}
+	feed := func(args sgbucket.FeedArguments, viaBucket bool) func() error {
+		return func() error {
+			term, done := make(chan bool), make(chan struct{})
+			args.Terminator, args.DoneChan = term, done
+			var err error
+			if viaBucket {
+				err = h.b.StartDCPFeed(ctx, args, func(sgbucket.FeedEvent) bool { return true }, nil)
+			} else {
+				err = col.StartDCPFeed(ctx, args, func(sgbucket.FeedEvent) bool { return true }, nil)
+			}
+			if err == nil {
+				close(term) // it started: stop it again
+				select {
+				case <-done:
+				case <-time.After(5 * time.Second):
+				}
+			}
+			return err
+		}
+	}
+	calls := []call{
+		{"StartDCPFeed(live)", feed(sgbucket.FeedArguments{ID: "closedprobe", Backfill: sgbucket.FeedNoBackfill}, false)},
+		{"StartDCPFeed(backfill)", feed(sgbucket.FeedArguments{ID: "closedprobe", Backfill: 0}, false)},
+		{"StartDCPFeed(dump)", feed(sgbucket.FeedArguments{ID: "closedprobe", Backfill: 0, Dump: true}, false)},
+		{"Bucket.StartDCPFeed(live)", feed(sgbucket.FeedArguments{ID: "closedprobe", Backfill: sgbucket.FeedNoBackfill}, true)},
+		{"Add", func() error { _, e := col.Add("closedprobe", 0, "v"); return e }},
+		{"Incr", func() error { _, e := col.Incr("closedprobe-n", 1, 1, 0); return e }},
+		{"WriteCas", func() error { _, e := col.WriteCas("closedprobe", 0, 0, []byte(`{"a":1}`), 0); return e }},
+		{"Touch", func() error { _, e := col.Touch("gen", 0); return e }},
+		{"GetWithXattrs", func() error { _, _, _, e := col.GetWithXattrs(ctx, "gen", []string{"_sync"}); return e }},
+		{"SetXattrs", func() error {
+			_, e := col.SetXattrs(ctx, "gen", map[string][]byte{"_sync": []byte(`{"a":1}`)})
+			return e
+		}},
+		{"WriteSubDoc", func() error { _, e := col.WriteSubDoc(ctx, "closedprobe-doc", "p", 0, []byte(`1`)); return e }},
+		{"Exists", func() error { _, e := col.Exists("gen"); return e }},
+		{"Delete", func() error { return col.Delete("gen") }},
+		{"Update", func() error {
+			_, e := col.Update("closedprobe", 0, func(cur []byte) ([]byte, *uint32, bool, error) { return []byte(`{"u":1}`), nil, false, nil })
+			return e
+		}},
+		{"Query", func() error {
+			it, e := col.Query(sgbucket.SQLiteLanguage, `SELECT id FROM $_keyspace`, nil, sgbucket.RequestPlus, false)
+			if e == nil && it != nil {
+				_ = it.Close()
+			}
+			return e
+		}},
+	}
+	// a rotating third of the calls per probe keeps the scripts fast
+	for i, c := range calls {
+		if (i+m.nprobe)%3 != 0 {
+			continue
+		}
+		var err error
+		func() {
+			defer func() {
+				if r := recover(); r != nil {
+					err = fmt.Errorf("panic: %v", r)
+				}
+			}()
+			err = c.f()
+		}()
+		m.ClosedProbes++
+		switch {
+		case err == nil:
+			m.Report("probe.closed-works|"+c.name, fmt.Sprintf("h%d was closed (other handles of the bucket: %d open) but its %s still succeeds   [steps: %s]", h.id, m.openCount(h.st), c.name, strings.Join(m.Steps, " ")))
+		case strings.HasPrefix(err.Error(), "panic"):
+			m.Report("probe.closed-panic|"+c.name, fmt.Sprintf("h%d was closed; its %s panicked: %v", h.id, c.name, err))
+		case !errors.Is(err, rosmar.ErrBucketClosed):
+			m.Report("probe.closed-errclass|"+c.name, fmt.Sprintf("h%d was closed; its %s fails with %q instead of the bucket-closed error", h.id, c.name, err))
+		}
 	}
 }
